@@ -147,6 +147,67 @@ theorem previous_spec (d : Dur) (w : Int) (hd : d.Canon) (hw : 0 ≤ w ∧ w ≤
     · rw [ha.2, hdiff.2, clampD_mid] <;> omega
     · rw [weekday_of_duration _ ha.1, ha.2, hdiff.2, clampD_mid (by omega) (by omega)]; omega
 
+/-- the TAI weekday of an epoch of any uniform scale advances with its own elapsed time: adding
+    whole days k to the duration adds k to the weekday (mod 7) — this is why `next`/`previous`, which
+    add days in the epoch's own scale, land on the requested TAI weekday in every uniform scale -/
+theorem weekday_shift_uniform (d : Dur) (a : TS) (k : Int) (hd : d.Canon) (ha : a.isUniform = true)
+    (hs : Safe d.val) (r : Dur) (hr : r.Canon) (hrs : Safe r.val) (hv : r.val = d.val + k * 86400000000000) :
+    ∃ w1 w2, (Ep.mk d a).weekdayIn .TAI = some w1 ∧ (Ep.mk r a).weekdayIn .TAI = some w2 ∧ w2 = (w1 + k) % 7 := by
+  have hnd : a.nonDyn = true := by cases a <;> simp_all [TS.isUniform, TS.nonDyn]
+  have h1 := weekday_in_uniform d a .TAI hd hnd rfl hs
+  have h2 := weekday_in_uniform r a .TAI hr hnd rfl hrs
+  refine ⟨_, _, h1, h2, ?_⟩
+  rw [instV_uniform a r.val ha, instV_uniform a d.val ha, hv]
+  have : off TS.TAI = 0 := rfl
+  rw [this]
+  omega
+
+/-- `next` for an epoch of ANY uniform scale: 1 to 7 whole days later in its own scale, on the
+    requested (TAI) weekday -/
+theorem next_spec_uniform (d : Dur) (a : TS) (w : Int) (hd : d.Canon) (ha : a.isUniform = true) (hw : 0 ≤ w ∧ w ≤ 6)
+    (hs : Safe d.val) (hs7 : Safe (d.val + 7 * 86400000000000)) :
+    ∃ r k, (Ep.mk d a).next w = some ⟨r, a⟩ ∧ r.Canon ∧ 1 ≤ k ∧ k ≤ 7 ∧ r.val = d.val + k * 86400000000000 ∧
+      (Ep.mk r a).weekdayIn .TAI = some w := by
+  have hnd : a.nonDyn = true := by cases a <;> simp_all [TS.isUniform, TS.nonDyn]
+  have hcur := weekday_in_uniform d a .TAI hd hnd rfl hs
+  have hoff : off TS.TAI = 0 := rfl
+  rw [instV_uniform a d.val ha, hoff] at hcur
+  unfold Ep.next; rw [hcur]; simp only
+  generalize hcv : ((d.val + off a - 0) / 86400000000000) % 7 = cur at *
+  have hc : 0 ≤ cur ∧ cur ≤ 6 := by omega
+  have hdiff := diff_weekdays cur w hc hw
+  have hz : Dur.ZERO.Canon := by unfold Dur.Canon Dur.ZERO; simp only [NPC_eq]; decide
+  have h7 := unitMulI64_spec Gen.NANOSECONDS_PER_DAY 7 (by unfold unitFactors; simp) (by decide)
+  have hsafe := hs
+  unfold Safe DMIN DMAX at hs; simp only [NPCs_eq] at hs
+  have key : ∀ (x : Dur) (k : Int), x.Canon → x.val = k * 86400000000000 → 1 ≤ k → k ≤ 7 → (cur + k) % 7 = w →
+      ∃ r k, some (Ep.mk (Dur.add d x) a) = some ⟨r, a⟩ ∧ r.Canon ∧ 1 ≤ k ∧ k ≤ 7 ∧ r.val = d.val + k * 86400000000000 ∧
+        (Ep.mk r a).weekdayIn .TAI = some w := by
+    intro x k hx hxv hk1 hk7 hwk
+    have ha' := add_spec d x hd hx
+    have hrv : (Dur.add d x).val = d.val + k * 86400000000000 := by rw [ha'.2, hxv, clampD_mid] <;> omega
+    have hrs : Safe (Dur.add d x).val := by
+      -- 7 days is far below the 4-century margin, but Safe itself is a fixed margin: weaken via a direct bound
+      unfold Safe DMIN DMAX at hs7 ⊢; simp only [NPCs_eq] at hs7 ⊢; have := hrv; omega
+    obtain ⟨w1, w2, e1, e2, e3⟩ := weekday_shift_uniform d a k hd ha hsafe (Dur.add d x) ha'.1 hrs hrv
+    have hcur' := weekday_in_uniform d a .TAI hd hnd rfl hsafe
+    rw [instV_uniform a d.val ha, hoff, hcv] at hcur'
+    rw [hcur'] at e1
+    have : w1 = cur := by injection e1 with h; exact h.symm
+    refine ⟨_, k, rfl, ha'.1, hk1, hk7, hrv, ?_⟩
+    rw [e2, e3, this, hwk]
+  by_cases he : Dur.eqb (wdDiff cur w) Dur.ZERO = true
+  · rw [if_pos he]
+    have hv := (eqb_spec _ _ hdiff.1 hz).mp he
+    have hzv : Dur.ZERO.val = 0 := by decide
+    rw [hzv, hdiff.2] at hv
+    exact key _ 7 h7.1 (by rw [h7.2, clampD_mid (x := 7 * Gen.NANOSECONDS_PER_DAY) (by decide) (by decide), NPD_eq]) (by omega) (by omega) (by omega)
+  · rw [if_neg he]
+    have hv : ¬ ((wdDiff cur w).val = 0) := by
+      intro h0; apply he; apply (eqb_spec _ _ hdiff.1 hz).mpr; left; rw [h0]; decide
+    rw [hdiff.2] at hv
+    exact key _ ((w - cur) % 7) hdiff.1 hdiff.2 (by omega) (by omega) (by omega)
+
 -- non-vacuity: the last nanosecond of Saturday 2023-05-06 TAI (the witness of repaired defect D17) is a Saturday
 example : (Dur.mk 1 736646399999999999).Canon ∧ weekdayOfDur ⟨1, 736646399999999999⟩ = 5 := by
   unfold Dur.Canon; simp only [NPC_eq]; decide
